@@ -386,7 +386,7 @@ def find_program(src, fam):
     except reflex.Reject:
         return None
     for tier in ('quick', 'thorough'):
-        n = c08.NSHARD[tier] if fam in ('stat', 'pairs') else max(4, c08.NSHARD[tier] // 4)
+        n = c08.NSHARD[tier] if fam in ('stat', 'pairs', 'local') else max(4, c08.NSHARD[tier] // 4)
         for k in range(n):
             for prog in c08.programs(tier, fam, k, n):
                 if not isinstance(prog, tuple) and L.expected_ref_tokens(prog) == sig:
